@@ -83,7 +83,9 @@ def check_noise_distinct(ctx, L, flip, nens, noise_level, case, label, later_lay
                           % (label, len(m['inputs']), want, 'flip' if flip else 'single'), case)
             return False
         n = [v - X for v in m['inputs']]
-        if flip and np.abs(n[0] + n[1]).max() > 1e-12 * scale:
+        # (x+n and x-n are each rounded relative to their own size: in late complete-ensemble layers the noise can be orders of
+        # magnitude larger than what is left of the signal)
+        if flip and np.abs(n[0] + n[1]).max() > 1e-12 * max(scale, np.abs(n[0]).max()):
             ctx.violation('flip-not-antisymmetric', '%s: the two runs of a flip member are not x+n and x-n' % label, case)
             return False
         noises.append(n[0])
